@@ -459,3 +459,21 @@ pub mod sloppytoken {
     }
 }
 pub use sloppytoken::{SloppyToken, SloppyTokenClient};
+#[allow(unused_imports)]
+pub mod laxtoken {
+    //! A "token" anybody can deploy: its `transfer` asks nobody for authorisation and moves nothing. Offered as gas
+    //! token, it shows whether a contract relies on the token to authenticate the payer.
+    use soroban_sdk::{contract, contractimpl, Address, Env};
+
+    #[contract]
+    pub struct LaxToken;
+
+    #[contractimpl]
+    impl LaxToken {
+        pub fn balance(_env: Env, _id: Address) -> i128 {
+            1_000_000
+        }
+        pub fn transfer(_env: Env, _from: Address, _to: Address, _amount: i128) {}
+    }
+}
+pub use laxtoken::LaxToken;
